@@ -310,7 +310,12 @@ def run(ctx):
     ctx.check("response-assembly", "send_responses/index-and-nonce-from-one-element", same,
               "idx and nonce come from the same requests.iter().enumerate().next() element",
               "idx (%s) and nonce (%s) are not the index and first component of one element of self.requests" % (fmt(idx_a), fmt(nonce_a)), sr.loc(sites[0]))
-    okp = is_call(path_a, "MerkleTree::get_paths") and path_a[2][0] == ("field", selfp, "merkle") and uncast(W.expand(path_a[2][1])) == idx_a
+    if isinstance(path_a, tuple) and path_a and path_a[0] == "obj":
+        from lib import outparam_wrapper_value
+        eq = outparam_wrapper_value(W, sr, sev, path_a, sites[0])
+        if eq is not None:
+            path_a = eq
+    okp = is_call(path_a, "MerkleTree::get_paths") and W.expand(path_a[2][0]) == ("field", selfp, "merkle") and uncast(W.expand(path_a[2][1])) == idx_a
     ctx.check("response-assembly", "send_responses/path-for-same-index", okp, "PATH = self.merkle.get_paths(idx) for the same idx",
               "PATH is %s while INDX is %s" % (fmt(path_a), fmt(idx_a)), sr.loc(sites[0]))
     # destination
